@@ -416,7 +416,7 @@ class Fn:
             # `let (a, b) = (x, y);`: a field read of a tuple built once from plain values is that value
             pl = op_place(d[3]["op"])
             if pl is not None and len(pl[1]) == 1 and pl[1][0][0] == "field":
-                td = self.single_def(pl[0])
+                td = self.single_def(self.copy_root(pl[0], depth + 1))
                 if td and td[0] == "assign" and td[3]["k"] == "aggregate" and td[3].get("akind") == "tuple" and pl[1][0][1] < len(td[3]["ops"]):
                     l3 = op_local(td[3]["ops"][pl[1][0][1]])
                     if l3 is not None:
